@@ -8,6 +8,7 @@
     :copyright: (c) 2013-present by Abhinav Singh and contributors.
     :license: BSD, see LICENSE for more details.
 """
+import os
 import re
 import time
 import socket
@@ -315,9 +316,16 @@ class HttpWebServerPlugin(HttpProtocolHandlerPlugin):
 
     def _try_static_or_404(self, path: bytes) -> None:
         path = text_(path).split('?', 1)[0]
+        # Resolve dot-segments and refuse anything which
+        # ends up outside of the static server directory.
+        root = os.path.abspath(self.flags.static_server_dir)
+        file_path = os.path.abspath(root + os.sep + path)
+        if os.path.commonpath([root, file_path]) != root:
+            self.client.queue(NOT_FOUND_RESPONSE_PKT)
+            return
         self.client.queue(
             HttpWebServerBasePlugin.serve_static_file(
-                self.flags.static_server_dir + path,
+                file_path,
                 self.flags.min_compression_length,
             ),
         )
